@@ -2,7 +2,7 @@
 """Re-verify every seeded change and record the outcome in its meta.json ("verified" key)."""
 import glob, json, os, subprocess, sys
 
-EXTRA = {"C09-a": "C09,C08", "C19-a": "C19,C05,C09", "C06-b": "C06,C04"}
+EXTRA = {"C09-a": "C09,C08", "C19-a": "C19,C05,C09", "C06-b": "C06,C04", "C19-c": "C19,C05", "C08-c": "C08,C14"}
 only = sys.argv[1:]
 head = subprocess.check_output(["git", "-C", "/repo", "log", "--format=%h", "-1"], text=True).strip()
 for d in sorted(glob.glob("/verif/seeded/C*-*")):
